@@ -11,6 +11,9 @@ open ZapVerif ZapVerif.GoMini ZapVerif.Gen.TransMultiWS
 /-- a scripted sink: `[n, writeErr, syncErr]` -/
 def sinkV (n : Int) (werr serr : List Val) : Val := .list [.int n, .list werr, .list serr]
 
+/-- the name under which a `w.Write` call is recorded in the trace: "sink.Write" -/
+def traceName : Val := .bytes [115, 105, 110, 107, 46, 87, 114, 105, 116, 101]
+
 /-- `w.Write(p)` returns what the sink scripts; `w.Sync()` likewise -/
 def ext : String → List Val → Option (List Val)
   | "sink.Write", [.list [.int n, .list e, _], .bytes _] => some [.int n, .list e]
